@@ -80,6 +80,20 @@ def WState.stepE (w : WState) (op : WOp) : WState × List Eff :=
            ⟨lb.v.key, -o.insuranceTokens, acc lb + (o.liabBooks.asv + o.liabBooks.lsv + 1), 0⟩])
       | .error _ => (w, [])
     | _, _, _, _ => (w, [])
+  | .accrue bi =>
+    match w.banks[bi]? with
+    | some b =>
+      match accrueIx (w.bctx b 0) with
+      | .ok books => (w.commitB bi b books, [⟨b.v.key, 0, acc b, 0⟩])
+      | .error _ => (w, [])
+    | none => (w, [])
+  | .collect bi feeAtaOk vault =>
+    match w.banks[bi]? with
+    | some b =>
+      match collectFeesIx (w.bctx b vault) feeAtaOk with
+      | .ok o => (w.commitB bi b o.books, [⟨b.v.key, -(o.toInsurance + o.toGroup + o.toProgram), 0, 0⟩])
+      | .error _ => (w, [])
+    | none => (w, [])
   | .tick dt => ({ w with now := w.now + dt }, [])
 
 theorem stepE_fst (w : WState) (op : WOp) : (w.stepE op).1 = w.step op := by
@@ -314,6 +328,61 @@ theorem pre2_of_inv {w : WState} (hi : SInv w) {qi ei abi lbi : Nat} {lq le : Ac
   obtain ⟨l1, l2⟩ := totals_nonneg hi hlb
   exact ⟨svA, a1, a2, cfgA, liveA, svL, l1, l2, cfgL, liveL, hi.slots qi lq hq, hi.slots ei le he⟩
 
+/-! ### instructions on a bank alone (accrual crank, fee collection) -/
+
+theorem commitB_getb {w : WState} {bi : Nat} {b : WBank} {books : Bank} (hb : w.banks[bi]? = some b) :
+    ∀ j, (w.commitB bi b books).banks[j]? = if bi = j then some { b with v := { b.v with books := books } } else w.banks[j]? := by
+  have hlen : bi < w.banks.length := by
+    rcases Nat.lt_or_ge bi w.banks.length with h | h
+    · exact h
+    · rw [List.getElem?_eq_none h] at hb; cases hb
+  intro j
+  simp only [WState.commitB]
+  rw [List.getElem?_set]
+  by_cases hj : bi = j
+  · subst hj; simp [hlen]
+  · simp [hj]
+
+theorem commitB_sinv {w : WState} {bi : Nat} {b : WBank} {books : Bank} (hi : SInv w) (hb : w.banks[bi]? = some b)
+    (hsa : books.sa = b.v.books.sa) (hsl : books.sl = b.v.books.sl) (hsv : SvFee books) (hasv : b.v.books.asv ≤ books.asv) :
+    SInv (w.commitB bi b books) := by
+  refine ⟨commitB_inv hi.led hb hsa hsl, hi.slots, hi.dust, ?_⟩
+  intro j x hx
+  rw [commitB_getb hb] at hx
+  by_cases h1 : bi = j
+  · simp only [h1, if_true] at hx
+    injection hx with hx; subst hx
+    obtain ⟨_, hcfg, hlive⟩ := hi.banks bi b hb
+    refine ⟨hsv, cfg_same hcfg rfl rfl rfl rfl, ?_⟩
+    intro h3
+    have := hlive h3
+    simp only
+    omega
+  · simp only [h1, if_false] at hx
+    exact hi.banks j x hx
+
+theorem commitB_pot {w : WState} {bi : Nat} {b : WBank} {books : Bank} {g : Ghost} {inflow allow : Int}
+    (hi : SInv w) (hb : w.banks[bi]? = some b)
+    (hcl : claims books ≤ claims b.v.books + inflow * ONE * ONE + allow) (hl : b.v.books.lsv ≤ books.lsv) :
+    ∀ (j : Nat) (x x' : WBank), w.banks[j]? = some x → (w.commitB bi b books).banks[j]? = some x' →
+      pot g x ≤ pot (g.apply [⟨b.v.key, inflow, allow, 0⟩]) x' ∧ x.v.books.lsv ≤ x'.v.books.lsv := by
+  intro j x x' hx hx'
+  rw [commitB_getb hb] at hx'
+  simp only [Ghost.apply, List.foldl_cons, List.foldl_nil]
+  by_cases h1 : bi = j
+  · simp only [h1, if_true] at hx'
+    injection hx' with hx'; subst hx'
+    subst h1
+    rw [hb] at hx; injection hx with hx; subst hx
+    refine ⟨pot_step (b := b) (e := ⟨b.v.key, inflow, allow, 0⟩) rfl rfl ?_, hl⟩
+    simp only
+    omega
+  · simp only [h1, if_false] at hx'
+    rw [hx] at hx'; injection hx' with hx'; subst hx'
+    have hne : x.v.key ≠ b.v.key := hi.led.keys j bi x b hx hb (fun e => h1 e.symm)
+    rw [pot_add_other hne]
+    exact ⟨Int.le_refl _, Int.le_refl _⟩
+
 /-! ### one step, every history -/
 
 theorem same_pot {w : WState} {g : Ghost} : ∀ (j : Nat) (x x' : WBank), w.banks[j]? = some x → w.banks[j]? = some x' →
@@ -329,6 +398,56 @@ theorem stepE_sound (w : WState) (g : Ghost) (op : WOp) (hi : SInv w) (hop : op.
   cases op with
   | tick dt =>
     exact ⟨⟨⟨hi.led.keys, hi.led.ledgerA, hi.led.ledgerL⟩, hi.slots, hi.dust, hi.banks⟩, same_pot⟩
+  | accrue bi =>
+    simp only [WState.stepE]
+    split
+    · rename_i b hb
+      split
+      · rename_i books ho
+        have hacc := accrueIx_ok ho
+        obtain ⟨hsv, hcfg, _⟩ := hi.banks bi b hb
+        obtain ⟨h1, h2⟩ := totals_nonneg hi hb
+        obtain ⟨hcl, hsv', m1, m2, e1, e2⟩ := accrue_solv hacc hsv h1 h2 hcfg.fees hcfg.base
+        refine ⟨commitB_sinv hi hb e1 e2 hsv' m1, commitB_pot hi hb ?_ m2⟩
+        have : claims books ≤ claims b.v.books + accrueAllowance b.v.books b.v.ir w.now := hcl
+        omega
+      · exact ⟨hi, same_pot⟩
+    · exact ⟨hi, same_pot⟩
+  | collect bi ok vault =>
+    simp only [WState.stepE]
+    split
+    · rename_i b hb
+      split
+      · rename_i o ho
+        obtain ⟨_, r, hr, hbk0, t1, t2, t3⟩ := collectFeesIx_ok ho
+        have hbk : o.books = { b.v.books with feeI := r.feeI, feeG := r.feeG, feeP := r.feeP } := hbk0
+        obtain ⟨hsv, _, _⟩ := hi.banks bi b hb
+        have hr' : collectFees b.v.books.feeI b.v.books.feeG b.v.books.feeP vault = .ok r := hr
+        obtain ⟨c1, c2, c3, c4, c5, c6, _, _, _, _⟩ := Mfi.Props.C19.collect_exact hr'
+        have hONE := ONE_pos
+        have hI : r.toInsurance * ONE ≤ b.v.books.feeI := by
+          rw [c1]; exact Int.le_trans (Int.ediv_mul_le _ (by omega)) (Int.min_le_left _ _)
+        have hG : r.toGroup * ONE ≤ b.v.books.feeG := by
+          rw [c2]; exact Int.le_trans (Int.ediv_mul_le _ (by omega)) (Int.min_le_left _ _)
+        have hP : r.toProgram * ONE ≤ b.v.books.feeP := by
+          rw [c3]; exact Int.le_trans (Int.ediv_mul_le _ (by omega)) (Int.min_le_left _ _)
+        have hsv' : SvFee o.books := by
+          rw [hbk]
+          exact ⟨hsv.asv, hsv.lsv, by simp only; omega, by simp only; omega, by simp only; omega⟩
+        refine ⟨commitB_sinv hi hb (by rw [hbk]) (by rw [hbk]) hsv' (by rw [hbk]),
+          commitB_pot hi hb ?_ (by rw [hbk])⟩
+        rw [hbk, t1, t2, t3]
+        unfold claims
+        simp only
+        rw [c4, c5, c6]
+        have e : -(r.toInsurance + r.toGroup + r.toProgram) * ONE * ONE =
+            -(r.toInsurance * ONE * ONE) - r.toGroup * ONE * ONE - r.toProgram * ONE * ONE := by ring
+        have e2 : (b.v.books.feeI - r.toInsurance * ONE + (b.v.books.feeG - r.toGroup * ONE) + (b.v.books.feeP - r.toProgram * ONE)) * ONE =
+            (b.v.books.feeI + b.v.books.feeG + b.v.books.feeP) * ONE - r.toInsurance * ONE * ONE - r.toGroup * ONE * ONE - r.toProgram * ONE * ONE := by ring
+        rw [e, e2]
+        omega
+      · exact ⟨hi, same_pot⟩
+    · exact ⟨hi, same_pot⟩
   | deposit ai bi signer amount upTo =>
     simp only [WState.stepE]
     split
@@ -499,6 +618,22 @@ theorem stepE_bank (w : WState) (op : WOp) (j : Nat) (x : WBank) (hx : w.banks[j
     · simp only [h, if_false]; exact ⟨x, hx, rfl⟩
   cases op with
   | tick dt => exact ⟨x, hx, rfl⟩
+  | accrue bi =>
+    simp only [WState.step]
+    split
+    · rename_i b hb
+      split
+      · exact one bi b _ hb rfl
+      · exact ⟨x, hx, rfl⟩
+    · exact ⟨x, hx, rfl⟩
+  | collect bi ok vault =>
+    simp only [WState.step]
+    split
+    · rename_i b hb
+      split
+      · exact one bi b _ hb rfl
+      · exact ⟨x, hx, rfl⟩
+    · exact ⟨x, hx, rfl⟩
   | deposit ai bi signer amount upTo =>
     simp only [WState.step]
     split
